@@ -33,7 +33,8 @@ class SymGraphBase:
         self.U = list(universe)
         self.node = dict(node) if node else {v: False for v in self.U}
         self.edge = dict(edge) if edge else {}
-        self.attr = {}  # (node, key) -> guard/True  (node attribute booleans)
+        self.attr = {}  # (node, key) -> guard: the attribute's (Boolean) value
+        self.attr_has = {}  # (node, key) -> guard: the node has this attribute
         self.graph = {}
 
     # -- helpers ------------------------------------------------------------------
@@ -50,6 +51,7 @@ class SymGraphBase:
     def copy(self):
         c = type(self)(self.U, self.node, self.edge)
         c.attr = dict(self.attr)
+        c.attr_has = dict(self.attr_has)
         return c
 
     def __merge__(self, c, other):
@@ -65,6 +67,7 @@ class SymGraphBase:
         self.node[v] = bor(self.node[v], Ctx.pc)
         for k, val in attrs.items():
             self.attr[(v, k)] = bite(Ctx.pc, guard_of(val), self.attr.get((v, k), False))
+            self.attr_has[(v, k)] = bor(self.attr_has.get((v, k), False), Ctx.pc)
 
     def add_nodes_from(self, it):
         for g, v in SList.of(it).items:
